@@ -85,12 +85,12 @@ def run(chk, replay=None):
     if replay and replay.get("case"):
         print("replay case:", replay["case"])
     t0 = time.time()
-    nsim, depth = (1100, 9) if tier == "thorough" else (260, 8)
+    nsim, depth = (1100, 9) if tier == "thorough" else (200, 8)
     sim_small = P.pool_cfg(init="PoolInit", ctxs="PoolCtxs", max_ops=6, max_depth=6, nest_anytime=True, check=False)
     behs = P.simulate_parallel("ExprOps_MC", sim_small, num=nsim, depth=depth, seed=chk.seed + 1, jobs=5)
     sim_big = P.pool_cfg(init="F2", ctxs="PoolCtxs", max_ops=6, max_depth=6, nest_anytime=True, leafs=("x", "y"),
                          idxs=("i", "j", "k"), vals=("1", "3"), poolset="PoolsFull", max_idx=2, check=False)
-    nbig = 400 if tier == "thorough" else 60
+    nbig = 400 if tier == "thorough" else 40
     behs_big = P.simulate_parallel("ExprOps_MC", sim_big, num=nbig, depth=depth, seed=chk.seed + 2, jobs=5)
     for b in behs + behs_big:
         rep.replay(b)
@@ -106,7 +106,7 @@ def run(chk, replay=None):
     graph_replay(chk, rep, tier)
 
     # 4. code -> specification: operation records of larger random sums -------------------------
-    nterms = 1500 if tier == "thorough" else 220
+    nterms = 1500 if tier == "thorough" else 180
     recs, samples = P.trace_records(rng, nterms)
     tv = trace.validate("Trace_Expr", recs, cfg=P.TRACE_CFG, timeout=1800)
     chk.add_tlc("trace_random_sums", tv.res, traces=nterms)
